@@ -1,9 +1,10 @@
 package main
 
 import (
+	"bytes"
 	"fmt"
-	"os"
 	"math/big"
+	"os"
 	"strconv"
 	"strings"
 
@@ -703,6 +704,15 @@ func c04FileProbe(g *Gen) {
 			}
 			if err := acc.Save(path, prog); err != nil {
 				msg = "save: " + err.Error()
+				return
+			}
+			// acc.String, acc.Write and the saved file are the same text
+			str, err := acc.String(prog)
+			var buf bytes.Buffer
+			werr := acc.Write(&buf, prog)
+			data, rerr := os.ReadFile(path)
+			if err != nil || werr != nil || rerr != nil || str != buf.String() || str != string(data) {
+				msg = fmt.Sprintf("acc.String / acc.Write / saved file differ (%v %v %v; %d / %d / %d bytes)", err, werr, rerr, len(str), buf.Len(), len(data))
 				return
 			}
 			back, err := acc.LoadFile(path)
